@@ -477,6 +477,8 @@ def t2_view(t2: Any) -> Any:
         "retrieved": [[str(getattr(r, "id", None)), round(float(getattr(r, "score", 0.0)), 6)] for r in getattr(t2, "retrieved", []) or []],
         "residual": list(getattr(t2, "graph_deltas_residual", []) or []),
         "k_used": m.get("k_used"), "k_returned": m.get("k_returned"), "tier_sequence": m.get("tier_sequence"),
+        # every other metric the stage reports, except the cache diagnostics (hit / miss / size / eviction counters)
+        "metrics": {str(k): m[k] for k in sorted(m, key=str) if "cache" not in str(k) and str(k) not in ("k_used", "k_returned", "tier_sequence")},
     }
 
 
